@@ -256,6 +256,21 @@ def gen_script_traces(chk, gencfg, keep):
     return ("scripts:" + gencfg[:-4], p, rep, 0)
 
 
+def must_fail(chk, flag, cfg, invariant):
+    """Non-vacuity of an invariant: the instance of LdapConn with one named deviation of the pinned code switched on (the model of
+    a defect that was found and fixed) must violate it."""
+    out = os.path.join(chk.dir, "dev-%s.out" % flag)
+    res = C.tlc("MCLdapConn", cfg, out, workers=4, timeout=600)
+    got = res.get("violated")
+    chk.extra.setdefault("deviation_instances", []).append(dict(deviation=flag, cfg=cfg, expected=invariant, violated=got,
+                                                                distinct=res["distinct"], wall_s=round(res["wall"], 1)))
+    if got != invariant:
+        chk.tool_error("deviation instance %s (%s) was expected to violate %s, TLC says: %s / %s"
+                       % (flag, cfg, invariant, got, res.get("error")))
+    if os.path.exists(out):
+        os.remove(out)
+
+
 def run_lane(pid, tier, mc, profiles, rule, selftests, assumptions=(), extra=None, scripts=None):
     """mc: list of (name, module, cfg, timeout, workers); profiles: list of (profile, count)."""
     chk = C.Check(pid, "model_checking", tier)
